@@ -198,91 +198,15 @@ def C13_2(ctx, facts):
 
 
 def C13_3(ctx, facts):
-    f = facts.unit(facts.fn("service::http::http1::check_http1_request"))
-    ctx.touched(f)
-    af = f.calls("service::http::http1::authority_form")
-    of = f.calls("service::http::http1::origin_form")
-    ab = f.calls("service::http::http1::absolute_form")
-    ctx.floor("check_http1_request|authority_form", len(af), 1, "authority_form calls")
-    ctx.floor("check_http1_request|origin_form", len(of), 1, "origin_form calls")
-    below = lambda lab: version_rel(f, lab, subject=r"Connection.*::version$") == "<"
-    for c in af + of + ab:
-        ok, w = f.guarded(c.bb, below)
-        ctx.check(ok, "check_http1_request|only-below-h2|%s" % norm(c.name).split("::")[-1], "the request target is rewritten only on connections below HTTP/2",
-                  "request target rewritten although the connection is HTTP/2", c.where(), f.path_desc(w))
-
-    def is_connect(val):
-        def pred(lab):
-            if lab.kind != "bool" or lab.value is not val or lab.cond.kind != "call":
-                return False
-            s = lab.cond.site
-            if norm(s.name).split("::")[-1] not in ("eq",) or "Method" not in " ".join(s.t.get("argtys") or []):
-                return False
-            consts = {str(r.desc) for a in s.args for r in f.roots(a, through_calls=False) if r.kind == "const"}
-            return any(c.endswith("Method::CONNECT") for c in consts)
-        return pred
-    for c in af:
-        ok, w = f.guarded(c.bb, is_connect(True))
-        ctx.check(ok, "check_http1_request|connect-authority-form", "authority-form is used exactly for CONNECT", "authority_form reachable for a non-CONNECT request", c.where(), f.path_desc(w))
-    # CONNECT ends in authority-form: origin_form may follow authority_form on the CONNECT path only behind a scheme test that
-    # reads the URI *after* authority_form rewrote it (which is why that test can never succeed and the target stays
-    # `host:port`); a scheme remembered from before the rewrite would turn the target of `CONNECT https://..` into `/`
-    afb = {c.bb for c in af}
-
-    def late_scheme_test(lab):
-        if lab.kind != "bool" or lab.value is None or lab.cond.kind != "call":
-            return False
-        s_ = lab.cond.site
-        rr_ = set()
-        for a_ in s_.args:
-            rr_ |= f.roots(a_)
-        reads = [r.site for r in rr_ if r.kind == "call" and r.site.is_("http::Uri::scheme", "http::uri::Uri::scheme", "http::Uri::scheme_str", "http::uri::Uri::scheme_str")]
-        return bool(reads) and all(f.must_pass(0, [x.bb], afb)[0] for x in reads)
-
-    for c in of:
-        if not f.guarded(c.bb, is_connect(True))[0]:
-            continue
-        ok, w = f.guarded(c.bb, late_scheme_test)
-        ctx.check(ok, "check_http1_request|connect-stays-authority-form", "on the CONNECT path origin_form is reachable only behind a scheme test of the already rewritten (authority-form) URI",
-                  "a CONNECT request can be rewritten to origin-form after authority-form (scheme read before the rewrite, or no test at all): the target collapses to `/`", c.where(), f.path_desc(w))
-    non_connect_origin = [c for c in of if f.guarded(c.bb, is_connect(False))[0]]
-    ctx.check(len(non_connect_origin) >= 1, "check_http1_request|origin-form-otherwise", "non-CONNECT requests get origin-form", "no origin_form on the non-CONNECT path")
-    # every non-CONNECT request with an absolute URI reaches origin_form: from the CONNECT==false edge, paths to return pass origin_form or absolute_form (relative URI: nothing to strip)
-    for (a, b) in f.edges_where(is_connect(False)):
-        ok, w = f.must_pass(b, f.returns, {c.bb for c in of} | {c.bb for c in ab})
-        ctx.check(ok, "check_http1_request|always-rewritten", "every non-CONNECT request below HTTP/2 goes through origin_form (or is already relative)", "a non-CONNECT request can skip the rewrite", f.where(a), f.path_desc(w))
-    o = facts.unit(facts.fn("service::http::http1::origin_form"))
-    ctx.touched(o)
-    pq = o.calls("http::Uri::path_and_query", "http::uri::Uri::path_and_query")
-    ctx.floor("origin_form|path_and_query", len(pq), 1, "path_and_query read")
-    stores = []
-    for b in sorted(o.live):
-        for s in o.stmts(b):
-            if s["k"] == "assign" and s["p"]["p"] and any(isinstance(e, dict) and e.get("n") == "path_and_query" for e in s["p"]["p"]):
-                stores.append((b, s))
-    ctx.floor("origin_form|parts-store", len(stores), 1, "Parts.path_and_query store")
-    for (b, s) in stores:
-        rr = o.roots(s["r"]["o"]) if s["r"]["k"] == "use" else set()
-        ok = any(r.kind == "call" and r.site.is_("http::Uri::path_and_query", "http::uri::Uri::path_and_query") for r in rr) and \
-            not any(r.kind == "const" and str(r.desc).startswith('"') for r in rr)
-        ctx.check(ok, "origin_form|path-kept", "the new URI's path_and_query is the original one (cloned), unchanged", "path_and_query stored from %s" % sorted(map(repr, sig(rr))), o.where(b))
-    dflt = [c for c in o.calls() if c.matches(r"Uri as .*Default.*::default$|Default::default$")]
-    ctx.check(bool(dflt), "origin_form|empty-path-slash", "an absent / root path becomes Uri::default() (\"/\")", "no Uri::default() for the empty path", o.where())
-    other = [c for c in o.calls() if c.matches(r"Uri.*::(from_static|from_str|try_from)$|Builder")]
-    ctx.check(not other, "origin_form|no-other-uri", "no other URI is synthesised", "origin_form builds a URI via %s" % [norm(c.name) for c in other])
-    a = facts.unit(facts.fn("service::http::http1::authority_form"))
-    stores = []
-    for b in sorted(a.live):
-        for s in a.stmts(b):
-            if s["k"] == "assign" and s["p"]["p"] and any(isinstance(e, dict) and e.get("n") == "authority" for e in s["p"]["p"]):
-                stores.append((b, s))
-    for (b, s) in stores:
-        rr = a.roots(s["r"]["o"]) if s["r"]["k"] == "use" else set()
-        ctx.check(any(r.kind == "call" and r.site.is_("http::Uri::authority", "http::uri::Uri::authority") for r in rr), "authority_form|authority-kept", "authority-form keeps the URI's authority", "authority stored from elsewhere", a.where(b))
-    ctx.floor("authority_form|store", len(stores), 1, "Parts.authority store")
-
-
-CONNECTION_HEADER_NAMES = {"header::CONNECTION", "\"proxy-connection\"", "\"keep-alive\"", "header::TRANSFER_ENCODING", "header::UPGRADE"}
+    """The request target written on an HTTP/1 connection: decision table of check_http1_request (h1table.py) over connection
+    version x method x URI shape, with the URI as a record of the abstract state."""
+    import h1table
+    h1table.table(ctx, facts)
+    import json
+    new = facts.fn("service::http::http1::Http1ChecksService::new")
+    ctx.touched(new)
+    ok = re.search(r'"fn": "[^"]*check_http1_request"', json.dumps(new.d["blocks"])) is not None
+    ctx.check(ok, "Http1ChecksService::new|installs-check", "Http1ChecksService applies check_http1_request to every request", "Http1ChecksService::new does not install check_http1_request", new.where())
 
 
 def C13_4(ctx, facts):
